@@ -779,6 +779,54 @@ def run(prog, rep, tier):
             rep.violation(R1412, eb_.path + "|none-returns|value-ignored", "process_dt_exit (line %d) returns None - 'option not given' - on a path where a value was given; such a value (e.g. the empty string of `-a \"$UNSET\"`) is silently "
                           "treated as no filter and everything is printed with exit status 0 instead of the run being rejected" % ln_)
 
+    # ------------------------------------------------------------ R14.13 the trailing zone name of a value is taken whole
+    # For `%Z` patterns process_dt pops the trailing letters off the value and looks them up in the zone
+    # table.  If that scan is bounded, the bound has to admit the longest name of the table (CHADT,
+    # ACWST, ... are five letters); a shorter bound makes those documented names unparseable for -a/-b
+    # while --tz-offset still accepts them.
+    R1413 = rep.rule("R14.13", "a bound on the trailing-zone-name scan in process_dt admits the longest name of the zone table")
+    pdb = prog.body("s4::process_dt")
+    zm_ = facts.const("s4lib::data::datetime::MAP_TZZ_TO_TZz")
+    try:
+        zmax = max(len(e[0]) for e in zm_["fields"]["entries"])
+    except Exception:
+        raise CheckerError("R14.13: zone table not readable")
+    pops_ = [c for c in pdb.live_calls() if c.d.endswith("String::pop")]
+    loops_ = [pdb.loop_blocks(h) for (_t, h) in pdb.back_edges()]
+    pop_loops = [L_ for L_ in loops_ if any(c.bb in L_ for c in pops_)]
+    if not pop_loops:
+        raise CheckerError("R14.13: the zone-name scan (String::pop in a loop) was not found in process_dt")
+    Lz = min(pop_loops, key=len)
+    bounds = []
+    for bb in sorted(Lz):
+        t = pdb.term(bb)
+        if t[0] != "switch":
+            continue
+        for o_ in pdb.origins(t[1], through_calls=("ops::Not>::not",)):
+            if o_[0] == "bin":
+                st_ = pdb.stmts(o_[1])[o_[2]]
+                opn = st_[2][1]
+                a_, b_ = st_[2][2], st_[2][3]
+                if opn in ("Lt", "Le", "Gt", "Ge"):
+                    kside = [x for x in (a_, b_) if x[0] == "k" and isinstance(x[2], int)]
+                    vside = [x for x in (a_, b_) if x[0] != "k"]
+                    if len(kside) == 1 and vside and any(y[0] == "call" and y[2].split("::")[-1] in ("len", "count") for y in pdb.origins(vside[0])):
+                        k_ = kside[0][2]
+                        # how many letters can be taken before the test stops the loop
+                        if (opn == "Lt" and a_[0] != "k") or (opn == "Gt" and a_[0] == "k"):
+                            cap = k_
+                        elif (opn == "Le" and a_[0] != "k") or (opn == "Ge" and a_[0] == "k"):
+                            cap = k_ + 1
+                        else:
+                            cap = None
+                        if cap is not None:
+                            bounds.append((cap, st_[3]))
+    rep.examined(R1413, pdb.path + "|zone-name-scan", sample={"longest_zone_name": zmax, "length_bounds_in_the_scan": bounds})
+    for cap, ln_ in bounds:
+        if cap < zmax:
+            rep.violation(R1413, pdb.path + "|zone-name-scan|bound-too-short", "process_dt (line %d) stops collecting the trailing zone name after %d letters but MAP_TZZ_TO_TZz has names of %d letters; "
+                          "`-a '20000102T030405 CHADT'` is rejected as unparseable although CHADT is an unambiguous documented zone (and --tz-offset CHADT is accepted)" % (ln_, cap, zmax))
+
     return rep.finish(
         "Static necessary-condition check of the CLI datetime-filter path: the relative-offset grammar is anchored (regular-language analysis of "
         "the const-evaluated pattern), a bare date is completed to 00:00:00 in value and pattern together, zone-less values are parsed in the "
